@@ -8,7 +8,7 @@ ENGINE = "progspace"
 TECHNIQUE = "bounded exhaustive exploration: every node binary analysed by a build with the library's own debug checks (abidw --debug-tc, --debug-abidiff), and an in-process probe comparing canonical identity with structural equality for EVERY pair of types of each binary"
 RULE = ("node binaries of C01 (packs of all units, seed programs incl. recursive types, decl-only/defined mixes across TUs, anonymous types, C++ classes; gcc and clang). Oracle 1: abidw --debug-tc and abidw --debug-abidiff "
         "(build configured with the debug-type-canonicalization / debug-self-comparison macros) exit 0 and print no 'error:' line. Oracle 2: with all types loaded, for every unordered pair of types that carry a canonical "
-        "type: same canonical type <=> structurally equal (canonical comparison switched off). Non-trivial: pairs of distinct type objects sharing a canonical type.")
+        "type: same canonical type <=> structurally equal (canonical comparison switched off). Oracle 2 is also evaluated on pairs of libraries loaded into ONE environment (as abidiff does): chains of 3-4 (thorough 2-6) mutually recursive structs whose head struct changes one member (int -> long) between the two versions, every combination of member orders (back pointer first / forward pointer first in each middle struct), both function orders - every type of the second version that reaches the head must get a canonical type of its own. Non-trivial: pairs of distinct type objects sharing a canonical type.")
 TEXT = "Every pair of types of every node binary is compared both ways; the library's own checks are run on the same binaries."
 NOTE = "Types without canonical type (documented non-canonicalized kinds) are skipped by oracle 2."
 _probe = None
@@ -20,11 +20,41 @@ def prepare(ctx):
     _probe = probe.build_probe("debugtc", "apiprobe_canon", extra_flags=["-fno-access-control", "-DWITH_DEBUG_TYPE_CANONICALIZATION"])
 
 
+def _chain_source(k, order, xt, fn_order):
+    """k mutually recursive structs C0 .. C(k-1): C0 {C1* n; XT x;}, Ci {back; fwd} (member order per `order`), C(k-1) {C(k-2)* p;}."""
+    names = ["C%d" % i for i in range(k)]
+    out = ["struct %s;" % n for n in names]
+    out.append("struct C0 { struct C1* n; %s x; };" % xt)
+    for i in range(1, k - 1):
+        back, fwd = "struct C%d* p;" % (i - 1), "struct C%d* n;" % (i + 1)
+        out.append("struct C%d { %s %s };" % (i, fwd, back) if order[i - 1] == "f" else "struct C%d { %s %s };" % (i, back, fwd))
+    out.append("struct C%d { struct C%d* p; };" % (k - 1, k - 2))
+    fns = ["int f_head(struct C0* a) { return a != 0; }", "int f_tail(struct C%d* a) { return a != 0; }" % (k - 1)]
+    if fn_order == "tail-first":
+        fns.reverse()
+    return "\n".join(out + fns) + "\n"
+
+
 def stages(ctx):
-    return [("all-node-binaries", [{"bin": b} for b in pc.node_binary_specs(ctx.quick) if not b.get("nodebug")])]
+    import itertools
+    # per middle struct: b = pointer back to the predecessor first, f = pointer forward to the successor first
+    chains = [{"chain": k, "order": "".join(o), "fn_order": f} for k in ((3, 4) if ctx.quick else (2, 3, 4, 5, 6))
+              for o in itertools.product("bf", repeat=max(k - 2, 0)) for f in ("head-first", "tail-first")]
+    return [("all-node-binaries", [{"bin": b} for b in pc.node_binary_specs(ctx.quick) if not b.get("nodebug")]),
+            ("recursive-chains-two-versions-one-environment", chains)]
 
 
 def evaluate(ctx, e):
+    if "chain" in e:
+        from .. import cbuild
+        libs = [cbuild.shared_c(_chain_source(e["chain"], e["order"], xt, e["fn_order"]), name="libchain.so", link=["-Wl,-soname,libchain.so"], tag="c20") for xt in ("int", "long")]
+        r = probe.run_probe(ctx, _probe, libs, timeout=600)
+        fails = []
+        for f in r["failures"]:
+            f["sig"] = f["sig"] + " chain"
+            f["element"] = dict(e)          # confirmation re-evaluates this chain, not the probe's own file element
+            fails.append(f)
+        return {"evaluations": r["evaluations"], "nontrivial_count": r.get("nontrivial_count", 0), "outcomes": r["outcomes"], "failures": fails[:10], "sample": e}
     b = e["bin"]
     path = pc.node_binary(b)
     kind = ("seed-" + b["seed"]) if "seed" in b else "pack"
